@@ -43,7 +43,8 @@ def show_bool(b):
 
 # ---------------------------------------------------------------- time limit
 
-class CaseTimeout(Exception):
+class CaseTimeout(BaseException):
+    """not an Exception: harness and library code that catches Exception must not swallow the watchdog"""
     pass
 
 class time_limit(object):
@@ -56,8 +57,8 @@ class time_limit(object):
     def __enter__(self):
         self.old = signal.signal(signal.SIGALRM, self._h)
         self.oldp = signal.signal(signal.SIGPROF, self._h)
-        signal.setitimer(signal.ITIMER_REAL, self.secs * 30)
-        signal.setitimer(signal.ITIMER_PROF, self.secs)
+        signal.setitimer(signal.ITIMER_REAL, self.secs * 30, 1.0)     # repeating: a swallowed signal is raised again
+        signal.setitimer(signal.ITIMER_PROF, self.secs, 1.0)
     def __exit__(self, *a):
         signal.setitimer(signal.ITIMER_PROF, 0)
         signal.setitimer(signal.ITIMER_REAL, 0)
@@ -243,13 +244,20 @@ def _worker_eval(chunk):
         out.append(eval_case(_MOD, case))
     return out
 
+_TIMEOUTS_SEEN = [0]
+
 def eval_case(mod, case):
     """returns dict(out=str|None, fail=None|dict(kind,detail), sig=str)"""
     tl = getattr(mod, 'CASE_TIMEOUT', 5.0)
+    if _TIMEOUTS_SEEN[0] >= 10:
+        # this process has already met ten cases that do not terminate: the verdict is settled, do not spend
+        # the full limit on each of the remaining ones
+        tl = min(tl, 1.0)
     try:
         with time_limit(tl):
             return mod.run_impl(case)
     except CaseTimeout:
+        _TIMEOUTS_SEEN[0] += 1
         return {'out': 'TIMEOUT', 'fail': {'kind': 'timeout', 'detail': 'no result within %.1fs of CPU time' % tl}, 'sig': 'timeout'}
     except RecursionError:
         return {'out': 'RECURSION', 'fail': {'kind': 'recursion-error', 'detail': 'RecursionError'}, 'sig': 'recursion'}
@@ -261,11 +269,21 @@ def pmap_cases(modname, cases, chunk=200):
     if len(cases) <= chunk or NPROC <= 1:
         _worker_init(modname)
         return _worker_eval(cases)
-    chunks = [cases[i:i+chunk] for i in range(0, len(cases), chunk)]
+    # striped chunks: neighbouring blocks of cases (which tend to be equally slow) go to different workers;
+    # blocks of 8 keep the locality some harnesses use (a directory layout shared by consecutive cases)
+    n = max(NPROC, (len(cases) + chunk - 1) // chunk)
+    idx = [[] for _ in range(n)]
+    for i in range(len(cases)):
+        idx[(i // 8) % n].append(i)
+    chunks = [[cases[i] for i in ix] for ix in idx]
     ctx = mp.get_context('fork')
     with ctx.Pool(min(NPROC, len(chunks)), initializer=_worker_init, initargs=(modname,)) as pool:
         res = pool.map(_worker_eval, chunks)
-    return [r for c in res for r in c]
+    out = [None] * len(cases)
+    for ix, r in zip(idx, res):
+        for i, x in zip(ix, r):
+            out[i] = x
+    return out
 
 # ---------------------------------------------------------------- known findings
 
